@@ -320,7 +320,26 @@ def r15_8(ctx):
            '%s.__init__(*%s) between allocation and return' % (var, P), path=w)
 
 
+
+def r15_9(ctx):
+    ctx.rule('R15.9', 'element access of a synchronized array hands out what the raw array hands out (for compound '
+                      'elements: a live view into the shared block), nothing is copied on the way: writes through the '
+                      'element reach the shared memory', floor=1)
+    m = ctx.model
+    ci = m.cls('sharedctypes:SynchronizedArray')
+    for name in ('__getitem__', '__getslice__'):
+        fi = ci.methods.get(name)
+        if fi is None:
+            continue
+        rets = [r for r in walk_own(fi.node) if isinstance(r, ast.Return)]
+        ok = bool(rets) and all(isinstance(r.value, ast.Subscript) and fi.canon(r.value.value) == 'self._obj' for r in rets)
+        ctx.ob('R15.9', 'SynchronizedArray.%s:returns-the-element-itself' % name, ok, fi, rets[0] if rets else None,
+               'return self._obj[...]' if ok else
+               '`%s`: the caller gets something made from the element, not the element' % (ast.unparse(rets[0])[:60] if rets else '?'))
+
+
 def run(ctx):
+    r15_9(ctx)
     r15_8(ctx)
     r15_5(ctx)
     # "atomic" read-modify-write under get_lock() across processes needs a lock that a forked child does not
@@ -343,6 +362,7 @@ def run(ctx):
 _S = 'billiard/sharedctypes.py'
 _H = 'billiard/heap.py'
 MUTANTS = [
+    ('array-elements-handed-out-as-copies', 'billiard/sharedctypes.py', "    def __getitem__(self, i):\n        with self:\n            return self._obj[i]\n", "    def __getitem__(self, i):\n        with self:\n            item = self._obj[i]\n            return type(item).from_buffer_copy(item) if isinstance(item, ctypes.Structure) else item\n", 'R15.9'),
     ('initialiser-copied-bytewise', 'billiard/sharedctypes.py', "        result.__init__(*size_or_initializer)\n        return result\n",
      "        if isinstance(size_or_initializer, (bytes, bytearray)):\n            ctypes.memmove(ctypes.addressof(result), bytes(size_or_initializer), len(size_or_initializer))\n        else:\n            result.__init__(*size_or_initializer)\n        return result\n", 'R15.8'),
     ('child-keeps-the-inherited-free-lists', _H, "            self.__init__()                     # reinitialize after fork\n",
